@@ -1,6 +1,7 @@
 import TTProofs.Lemmas.C08_Main
 import TTProofs.Lemmas.C08_Scaling
 import TTProofs.Lemmas.C08_Examples
+import TTProofs.Lemmas.C08_LinPiece
 import Mathlib.Data.List.Count
 /-!
 # C08 — coalescent priors equal the Kingman density of their demographic function
@@ -327,71 +328,16 @@ example : skyrideLogProb (List.replicate 2 7) (([0, 0, 1] : List ℝ) ++ [2, 3])
   skyride_all_equal_is_constant 7 (samp := [0, 0, 1]) (coal := [2, 3]) rfl (by simp)
     (by intro s hs; exact ⟨2, by simp, by simp at hs; rcases hs with rfl | rfl <;> norm_num⟩)
 
-/-! ## piecewise-linear population size (partial) -/
+/-! ## piecewise-linear population size: the per-interval integral -/
 
-/-
-Full statement (NOT proved; the piecewise-linear class is covered by the Kingman oracle run on the
-implementation, `harness/c08.py`, which found and now guards defect F25):
-
-  linear_eq_kingman : PiecewiseLinearCoalescentGrid.log_prob (θ, grid) (samp' ++ coal')
-      = kingman samp coal (linear interpolation of (0,θ₀), (g₁,θ₁), …, (g_G,θ_G), constant θ_G beyond g_G) a b
-
-What is proved is the analytic core the code relies on for each inter-event interval: on an interval where
-`N` is linear from `Na` to `Nb` the integral of `1/N` is `Δt · (log Nb − log Na)/(Nb − Na)` — the code's
-`intervals * diff_log_thetas / diff_thetas` — and `Δt / Na` when `Na = Nb` (the flat case the unrepaired code
-divided by the LAST population size instead, F25).
--/
+/-- the analytic core of the piecewise-linear class (the full `linear_eq_kingman`, with its permutation-invariance and
+scaling corollaries, is proved in `Props/C08_Linear.lean`): on an interval where `N` is linear from `Na` to `Nb` the
+integral of `1/N` is `Δt · (log Nb − log Na)/(Nb − Na)` — the code's `intervals * diff_log_thetas / diff_thetas` — and
+`Δt / Na` when `Na = Nb` (the flat case the unrepaired code divided by the LAST population size instead, F25). -/
 theorem linear_eq_kingman_partial (a b Na Nb : ℝ) (hab : a < b) (hNa : 0 < Na) (hNb : 0 < Nb) :
     ∫ t in a..b, 1 / (Na + (Nb - Na) * (t - a) / (b - a))
-      = if Na = Nb then (b - a) / Na else (b - a) * (Real.log Nb - Real.log Na) / (Nb - Na) := by
-  have hba : 0 < b - a := sub_pos.mpr hab
-  split
-  · rename_i h
-    rw [h]
-    simp only [sub_self, zero_mul, zero_div, add_zero]
-    rw [intervalIntegral.integral_const]
-    simp [div_eq_mul_inv]
-  · rename_i hne
-    have hd : Nb - Na ≠ 0 := sub_ne_zero.mpr (Ne.symm hne)
-    -- N is positive on [a, b]: a convex combination of Na and Nb
-    have hpos : ∀ t ∈ Set.uIcc a b, 0 < Na + (Nb - Na) * (t - a) / (b - a) := by
-      intro t ht
-      rw [Set.uIcc_of_le hab.le] at ht
-      have h0 : 0 ≤ (t - a) / (b - a) := div_nonneg (sub_nonneg.mpr ht.1) hba.le
-      have h1 : (t - a) / (b - a) ≤ 1 := (div_le_one hba).mpr (by linarith [ht.2])
-      have : Na + (Nb - Na) * (t - a) / (b - a)
-          = (1 - (t - a) / (b - a)) * Na + ((t - a) / (b - a)) * Nb := by ring
-      rw [this]
-      rcases eq_or_lt_of_le h0 with h | h
-      · rw [← h]; simpa using hNa
-      · have : 0 < ((t - a) / (b - a)) * Nb := mul_pos h hNb
-        have : 0 ≤ (1 - (t - a) / (b - a)) * Na := mul_nonneg (by linarith) hNa.le
-        linarith
-    have hderiv : ∀ t ∈ Set.uIcc a b,
-        HasDerivAt (fun t => (b - a) / (Nb - Na) * Real.log (Na + (Nb - Na) * (t - a) / (b - a)))
-          (1 / (Na + (Nb - Na) * (t - a) / (b - a))) t := by
-      intro t ht
-      have hN : HasDerivAt (fun t => Na + (Nb - Na) * (t - a) / (b - a)) ((Nb - Na) / (b - a)) t := by
-        have h1 : HasDerivAt (fun t : ℝ => t - a) 1 t := (hasDerivAt_id t).sub_const a
-        have h2 := ((h1.const_mul (Nb - Na)).div_const (b - a)).const_add Na
-        simpa using h2
-      have hl := (hN.log (hpos t ht).ne').const_mul ((b - a) / (Nb - Na))
-      have hp := (hpos t ht).ne'
-      have hba' : b - a ≠ 0 := hba.ne'
-      have heq : (b - a) / (Nb - Na) * ((Nb - Na) / (b - a) / (Na + (Nb - Na) * (t - a) / (b - a)))
-          = 1 / (Na + (Nb - Na) * (t - a) / (b - a)) := by
-        field_simp
-      rw [heq] at hl
-      exact hl
-    have hcont : ContinuousOn (fun t => 1 / (Na + (Nb - Na) * (t - a) / (b - a))) (Set.uIcc a b) := by
-      apply ContinuousOn.div continuousOn_const
-      · fun_prop
-      · intro t ht; exact (hpos t ht).ne'
-    rw [intervalIntegral.integral_eq_sub_of_hasDerivAt hderiv hcont.intervalIntegrable]
-    have ea : Na + (Nb - Na) * (a - a) / (b - a) = Na := by simp
-    have eb : Na + (Nb - Na) * (b - a) / (b - a) = Nb := by field_simp; ring
-    rw [ea, eb]
-    field_simp
+      = if Na = Nb then (b - a) / Na else (b - a) * (Real.log Nb - Real.log Na) / (Nb - Na) :=
+  linear_piece_integral a b Na Nb hab hNa hNb
 
 example : ∫ t in (0:ℝ)..1, 1 / (8 + (8 - 8) * (t - 0) / (1 - 0)) = (1 - 0) / 8 := by
   rw [linear_eq_kingman_partial 0 1 8 8 (by norm_num) (by norm_num) (by norm_num)]; simp
